@@ -17,7 +17,7 @@ TECHNIQUE = 'bounded-exhaustive problem grammar, exact epigraph LP + exact box-r
 RULE = ('one case = (objective form, ordered tuple of 1-3 constraint forms); the inner loop runs over the full product '
         'of the data variants of the forms (2 per form quick, 3 thorough; VERIF_SEED rotates which variants of each '
         'form\'s fixed list are used) and, per problem, over format in {dense, sparse} x solver in {default, glpk}; '
-        '14 objective forms (a negative multiple of a sum of componentwise minima, affine with constant, affine in x only, max of two affine, max(affine, affine, constant), '
+        '15 objective forms (a negative multiple of a sum of componentwise minima, affine with constant, affine in x only, max of two affine, max(affine, affine, constant), '
         'abs, sum(abs(vector)), sum(max(vector, 0)), max over components, affine + max, 2*abs + affine, z + max, '
         'max(abs, sum(abs)), the nested sum(max(0, abs-1, 2*abs-3)) of modeling.rst) and 22 constraint forms (scalar '
         '<=, vector >= scalar, dense/sparse matrix coefficient, scalar/vector/matrix ==, abs <= c scalar, vector and '
@@ -59,11 +59,11 @@ ASSUME = ['mc/ref/lpexact.py (exact two-phase simplex) and mc/ref/pwl.py (epigra
           'than 1e-4 (otherwise nothing depends on it); multipliers are not compared between configurations (dual '
           'uniqueness is not decided), each is checked through the dual function instead',
           'a variable occurrence multiplied by the number 0 (0*x + 1 <= c) does not make x a variable of the problem']
-BOUNDS = {'quick': '14 objective forms x (23 single constraint forms + 69 ordered pairs (second = first + 1, 4, 9 mod 23)) '
+BOUNDS = {'quick': '15 objective forms x (23 single constraint forms + 69 ordered pairs (second = first + 1, 4, 9 mod 23)) '
                    'and 4 objective forms x 23 ordered triples (i, i+2, i+7 mod 23); 2 data variants per form; '
                    '4 configurations per problem (9.4e3 problems, 3.8e4 solves)',
-          'thorough': '14 objective forms x (23 singles + all 529 ordered pairs) with 3 data variants per form (pairs: '
-                      '2 variants of the objective), 14 objective forms x 44 ordered triples ((i, i+2, i+7), (i, i+5, i+11) '
+          'thorough': '15 objective forms x (23 singles + all 529 ordered pairs) with 3 data variants per form (pairs: '
+                      '2 variants of the objective), 15 objective forms x 44 ordered triples ((i, i+2, i+7), (i, i+5, i+11) '
                       'mod 23) with 2 variants per form; 4 configurations per problem (1.25e5 problems, 5e5 solves)'}
 
 TOLF = 1e-6      # feasibility (feastol 1e-7 relative to the data)
@@ -122,6 +122,9 @@ OBJ = [
      lambda c0, c1: ['max', ['abs', X], ['sum', ['abs', ['-', Y, CM(c0, c1)]]]]),
     ('docphi', [(1,), (-1,), (2,)],
      lambda a: ['+', ['*', a, X], ['sum', _phi(Y)]]),
+    # sum of a vector function that contains a scalar convex term broadcast over its components
+    ('sumbc', [(1, 0, 1), (0, 2, -1), (-1, 1, 2)],
+     lambda c0, c1, a: ['+', ['*', a, X], ['sum', ['+', ['*', 2, ['abs', ['-', Y, CM(c0, c1)]]], ['vmax', Y]]]]),
     ('nsmin', [(-2, 1, 0, 1), (-1, 0, 2, -1), (-3, -1, 1, 2)],
      lambda k, c0, c1, a: ['+', ['*', a, X], ['nsmin', k, Y, ['-', CM(c0, c1), Y]]]),
 ]
@@ -269,8 +272,23 @@ def _build(e, V):
     raise ValueError(t)
 
 
+def _derive_and_discard(g, V):
+    """build a function from g and scale it in place, as a user would who reuses g elsewhere (f = z + g; f *= 0.5);
+    g itself, used afterwards in the problem, must not be affected (functions own their coefficient matrices)."""
+    try:
+        f = V['z'] + g
+        f *= 0.5
+        f = g - V['z']
+        f *= -2.0
+    except Exception:
+        pass
+
+
 def _mkcon(con, V):
     a, b = _build(con[0], V), _build(con[2], V)
+    for g in (a, b):
+        if hasattr(g, 'variables'):
+            _derive_and_discard(g, V)
     if con[1] == '<=':
         return a <= b
     if con[1] == '>=':
